@@ -237,7 +237,12 @@ def extract_fn(repo, spec):
                 if "|" in pat or not pat.strip():
                     raise vf.Undecided("%s: cannot isolate the parameter pattern of a closure" % spec["name"])
                 replaces.append((ps + 1, pe - 1, bind))
-                let = "let %s = %s; " % (pat.strip(), bind)
+                mref = re.match(r"^&\s*(\w+)$", pat.strip())
+                if mref:
+                    # `|&x| ..` binds x to a copy of what the argument points to: `let x = *p0;` (this Verus has no ref patterns)
+                    let = "let %s = *%s; " % (mref.group(1), bind)
+                else:
+                    let = "let %s = %s; " % (pat.strip(), bind)
             if braced:
                 inserts.append((pe, " " + a + " "))
                 if let:
